@@ -31,6 +31,10 @@ type Case struct {
 	FixedKey  string
 	FixedVals []string
 	FixedText string
+	// FailedParse, if non-empty, is a projection expression with a fixed list followed by an
+	// invalid field; it is offered to Parse with the filter first and must be rejected
+	// without changing what the filter keeps.
+	FailedParse string
 }
 
 var unitPool = []string{"ns/op", "MB/s", "B/op", "allocs/op", "sec/op", "widgets", "B/s"}
@@ -77,6 +81,14 @@ func Check(c Case) (v vcase.Verdict) {
 	if err != nil {
 		v.Failf("NewFilter(%q) failed for a grammatical expression: %v", c.Text, err)
 		return
+	}
+	if c.FailedParse != "" {
+		var pp0 benchproc.ProjectionParser
+		if _, err := pp0.Parse(c.FailedParse, f); err == nil {
+			v.Failf("Parse(%q) succeeded", c.FailedParse)
+			return
+		}
+		v.Label("after_failed_parse")
 	}
 	var st refexpr.Stats
 	c.Tree.Stats(&st)
@@ -212,10 +224,10 @@ func describe(c Case) string {
 
 // ---------------------------------------------------------------------------
 
-var names = []string{"Foo", "Foo/size=4k", "Foo/size=4k/kind=a-8", "Bar-16", "Bar/gomaxprocs=2", "X/a=/b=1", "é/k=v", "Foo/size=1M-4"}
+var names = []string{"Foo", "Foo/size=4k", "Foo/size=4k/kind=a-8", "Bar-16", "Bar/gomaxprocs=2", "X/a=/b=1", "é/k=v", "Foo/size=1M-4", "Foo-9", "Foo/size=4k-192", "Bar/kind=big-endian/size=9-96", "Foo/gomaxprocs=2-8"}
 var cfgKeys = []string{"goos", "pkg", "a", ".file", "note"}
 var cfgVals = []string{"linux", "darwin", "x y", "1", "p/q", "é", "-v", "*", "a:b", "(x)", "AND"}
-var safeRegexps = []string{"^F", "oo$", "4k|1M", "^$", ".", "[a-f]+", "^(linux|darwin)$", "s.c", "B", "^[0-9]+$", "x y"}
+var safeRegexps = []string{"^F", "oo$", "4k|1M", "^$", ".", "[a-f]+", "^(linux|darwin)$", "s.c", "B", "^[0-9]+$", "x y", "^ns", "^MB", "ns.op$", "^sec", "^9", "9"}
 
 func keysFor(name string) []string {
 	ks := []string{".name", ".fullname", "/gomaxprocs", "/size", "/kind", "/absent"}
@@ -345,6 +357,9 @@ func Gen(t *rapid.T) Case {
 	g := &genCtx{ref}
 	c.Tree = genTree(t, g, rapid.IntRange(1, 5).Draw(t, "depth"))
 	c.Text = refexpr.Print(t, c.Tree)
+	if vcase.OneIn(t, 8, "failedparse") {
+		c.FailedParse = rapid.SampledFrom([]string{"goos@(zz yy),.unit", ".name@(Nope),pkg@bogus", "/size@(none) .config@(a b)", "a@(q),k@", ".fullname@(x y),(", `goos@(zz),"`}).Draw(t, "fp")
+	}
 	if vcase.OneIn(t, 6, "fixed") {
 		c.FixedKey = rapid.SampledFrom([]string{".name", "/size", "goos", "/gomaxprocs", ".fullname"}).Draw(t, "fk")
 		nv := rapid.IntRange(1, 3).Draw(t, "nfv")
